@@ -30,7 +30,8 @@ CONSTANTS MaxLat        \* a completed word is reported within 1..MaxLat cycles
 
 VARIABLES WS, cpol, cpha, msb,   \* configuration: word size, clock polarity / phase (0/1), MSB first
           in,           \* Env: inputs of the cycle just taken [cs, sck, sdi, wout]
-          quiet,        \* Env: neither sck nor cs changed in the cycle just taken
+          sckq,         \* Env: sck did not change in the cycle just taken
+          csq,          \* Env: cs did not change in the cycle just taken
           wq,           \* Env: wout did not change in the cycle just taken
           cool,         \* Env: cycles since the last word-completing sample edge (saturates at MaxLat)
           rx,           \* Ref: bits of the word in progress, in arrival order
@@ -42,7 +43,7 @@ VARIABLES WS, cpol, cpha, msb,   \* configuration: word size, clock polarity / p
           nCompleted,   \* ghost: words completed so far (all assertions)
           nReported     \* ghost: word_complete strobes so far
 
-vars == <<WS, cpol, cpha, msb, in, quiet, wq, cool, rx, txw, pend, out, allbits, done, nCompleted, nReported>>
+vars == <<WS, cpol, cpha, msb, in, sckq, csq, wq, cool, rx, txw, pend, out, allbits, done, nCompleted, nReported>>
 
 -----------------------------------------------------------------------------
 (* bit order *)
@@ -54,9 +55,12 @@ RECURSIVE Flatten(_)
 Flatten(ws) == IF ws = <<>> THEN <<>> ELSE WordBits(Head(ws)) \o Flatten(Tail(ws))
 
 -----------------------------------------------------------------------------
-(* Env: what an SPI host does.  word_out is only changed away from SCK / CS transitions and not *)
-(* in the MaxLat cycles after a word-completing sample edge (the window in which the device may *)
-(* still be reporting the word and latching the next one).                                      *)
+(* Env: what an SPI host does.  SCK edges are at least two device cycles apart, and so are CS *)
+(* changes; a CS change may come in the cycle right after (or before) an SCK edge -- e.g. CS is  *)
+(* released one cycle after the last sample edge -- but never in the same cycle.  word_out is    *)
+(* only changed away from SCK / CS transitions and not in the MaxLat cycles after a              *)
+(* word-completing sample edge (the window in which the device may still be reporting the word   *)
+(* and latching the next one).                                                                   *)
 IsEdge(i)    == i.sck # in.sck
 Leading(i)   == IsEdge(i) /\ i.sck # cpol          \* SCK leaves its idle level
 Trailing(i)  == IsEdge(i) /\ i.sck = cpol          \* SCK returns to its idle level
@@ -67,7 +71,8 @@ EnvFail(i) ==
     LET csch == i.cs # in.cs
         moved == IsEdge(i) \/ csch
     IN IF IsEdge(i) /\ csch THEN "env_sck_and_cs_change_together"
-       ELSE IF moved /\ ~quiet THEN "env_transitions_in_consecutive_cycles"
+       ELSE IF IsEdge(i) /\ ~sckq THEN "env_sck_edges_in_consecutive_cycles"
+       ELSE IF csch /\ ~csq THEN "env_cs_changes_in_consecutive_cycles"
        ELSE IF i.cs /\ ~in.cs /\ i.sck # cpol THEN "env_cs_asserted_while_sck_not_idle"
        ELSE IF i.sdi # in.sdi /\ IsEdge(i) THEN "env_sdi_changes_on_sck_edge"
        ELSE IF i.wout # in.wout /\ (moved \/ cool < MaxLat) THEN "env_word_out_changes_at_transition_or_before_strobe"
@@ -79,7 +84,7 @@ LegalInput(i) == EnvFail(i) = "ok"
 InitCfg(ws, pol, pha, m) ==
     /\ WS = ws /\ cpol = pol /\ cpha = pha /\ msb = m
     /\ in = [cs |-> FALSE, sck |-> pol, sdi |-> 0, wout |-> 0]
-    /\ quiet = TRUE /\ wq = TRUE /\ cool = MaxLat
+    /\ sckq = TRUE /\ csq = TRUE /\ wq = TRUE /\ cool = MaxLat
     /\ rx = <<>> /\ txw = 0 /\ pend = <<>>
     /\ out = [wc |-> FALSE, win |-> 0, sdo |-> 0]
     /\ allbits = <<>> /\ done = <<>> /\ nCompleted = 0 /\ nReported = 0
@@ -113,7 +118,7 @@ Outcome(i, o) ==
 StepR(i, o, r) ==                      \* r = Outcome(i, o), computed once by the caller
     /\ r.err = "ok"
     /\ in' = i /\ out' = o
-    /\ quiet' = (i.sck = in.sck /\ i.cs = in.cs)
+    /\ sckq' = (i.sck = in.sck) /\ csq' = (i.cs = in.cs)
     /\ wq' = (i.wout = in.wout)
     /\ cool' = (IF r.full THEN 0 ELSE IF cool < MaxLat THEN cool + 1 ELSE MaxLat)
     /\ rx' = r.rx /\ txw' = r.txw /\ pend' = r.pend
